@@ -629,6 +629,25 @@ func ruleC07OpsCase(p *Prog, a *Anchors, r *Report, levels map[string]*gramLevel
 						}
 						continue
 					}
+					// a three-way comparison of the package over the two operands (`compareIntegers(v1, v2) < 0`): handed the
+					// operands in written order
+					if callee != nil && p.InPkg(callee) && callee.Signature.Recv() == nil && len(x.Common().Args) == 2 && callee.Signature.Results().Len() == 1 && isIntType(callee.Signature.Results().At(0).Type()) {
+						vt := types.NewPointer(a.Value)
+						if types.Identical(x.Common().Args[0].Type(), vt) && types.Identical(x.Common().Args[1].Type(), vt) {
+							ls := labelsAt(b)
+							key := fmt.Sprintf("%s:%s %s", en.typ, strings.Join(ls, ","), callee.Name())
+							o1, o2 := operandOrdinal(p, x.Common().Args[0], en, 0), operandOrdinal(p, x.Common().Args[1], en, 0)
+							switch {
+							case o1 == 1 && o2 == 2:
+								r.OK(key, p.InstrPos(in), "%s(<first operand>, <second operand>)", callee.Name())
+							case o1 == 2 && o2 == 1:
+								r.Bad(key, p.InstrPos(in), "case %q hands its operands to %s in the wrong order: <second operand> is compared with <first operand>", strings.Join(ls, ","), callee.Name())
+							default:
+								r.Unk(key, p.InstrPos(in), "cannot attribute the arguments of %s to the node's operands (%d,%d)", callee.Name(), o1, o2)
+							}
+							continue
+						}
+					}
 					if callee == nil || callee.Pkg == nil || callee.Pkg.Pkg.Path() != "time" || callee.Signature.Recv() == nil {
 						continue
 					}
@@ -702,6 +721,17 @@ func ruleC07OpsCase(p *Prog, a *Anchors, r *Report, levels map[string]*gramLevel
 							continue
 						}
 						if _, isC := x.Y.(*ssa.Const); isC {
+							// `cmp(a, b) <op> 0` over a three-way comparison of the package that returns an int: the exact
+							// form for integers (there is no NaN among them; for floats the operator itself is required)
+							if k, isK := constInt(x.Y); isK && k == 0 {
+								if cc, isCall := x.X.(*ssa.Call); isCall && cc.Common().StaticCallee() != nil && p.InPkg(cc.Common().StaticCallee()) {
+									for _, t := range ops {
+										if x.Op == t {
+											hasInt = true
+										}
+									}
+								}
+							}
 							continue
 						}
 						for _, t := range ops {
